@@ -33,7 +33,8 @@
                                closest (is_valid) | missing-edge (delete_edges) | swap (InvalidActionError
                                of UserSwapPredecessors turned into a warning)
          | `err:<e>`           an exception propagated (e as in `S`; IndexError of a short column = other);
-                               the state shows what the earlier elements left behind
+                               the state shows what the earlier elements left behind (`updattrs`: nothing,
+                               the applied updates are rolled back)
          | `true` | `false`    undo / redo / is_valid
   Malformed input: `bad-op`.  As in `S`, the reached state is cross-checked against the faithful IoU
   model (`bad-model` on a mismatch).
@@ -59,8 +60,9 @@
     SC swap 1 2                             -> refused:swap | (neither node has a predecessor)
     SC updattrs 2 1 2 1 20 2 t 4 t 5        -> ok | N 2 1 0 1 1 2 3 t 5 20 t 4 2 1 3 3 2 3 t 6 20 t 5 … H 7 0 R 7 -1 …
                                                (two nodes, ONE history entry, one refresh)
-    SC updattrs 2 1 99 1 20 2 t 6 t 7       -> err:key | N 2 1 0 1 1 2 3 t 5 20 t 6 2 … 20 t 5 … H 7 0 R 7 -1 …
-                                               (node 99 unknown: node 1 already carries 6, nothing registered)
+    SC updattrs 2 1 99 1 20 2 t 6 t 7       -> err:key | N 2 1 0 1 1 2 3 t 5 20 t 4 2 … 20 t 5 … H 7 0 R 7 -1 …
+                                               (node 99 unknown: the update of node 1 to 6 is rolled back — repaired
+                                               `_update_node_attrs` —, nothing registered, no refresh)
     SC undo                                 -> true | N 2 1 0 1 1 1 3 t 5 2 1 3 3 1 3 t 6 … H 7 1 R 8 -1 …
     SC isvalid 1 2                          -> true | …        SC isvalid 2 2 -> false | …
     SC frob                                 -> bad-op
